@@ -13,9 +13,10 @@ ALLDEVS = XDEVS + TDEVS
 INVS = "SchemaAgreesWithServer SchemaAgreesWithDesign ProducedResponseConforms"
 
 
-def gen_vectors(ctx, fam, label=None, workers="auto"):
-    r = ctx.gen("mc/MC_OpenAPIOps", "gen/Gen_OpenAPIOps_schema.cfg", consts={"Family": '"%s"' % fam}, label=label or ("Gen exchanges " + fam), timeout=1500,
-                workers=workers)
+def gen_vectors(ctx, fam, label=None, workers="auto", npa=1, nra=1, simulate=None):
+    r = ctx.gen("mc/MC_OpenAPIOps", "gen/Gen_OpenAPIOps_schema.cfg", consts={"Family": '"%s"' % fam, "NPA": npa, "NRA": nra},
+                label=label or ("Gen exchanges %s %dx%d%s" % (fam, npa, nra, " (simulate)" if simulate else "")), timeout=1500,
+                workers=(1 if simulate else workers), simulate=simulate, depth=(40 if simulate else None))
     return r.vectors
 
 
@@ -136,18 +137,16 @@ def xkey(v):
 def xevaluate(ctx, vectors, devsets, label="XEval"):
     uniq = {}
     for v in vectors:
-        uniq[xkey(v)] = v
-    if not uniq:
-        return {}
-    cases = "".join(json.dumps({"pa": v["pa"], "ra": v["ra"], "tagged": v.get("tagged", False), "pv": v["pv"], "rv": v["rv"], "flag": v.get("flag", "none")}) + "\n"
-                    for v in uniq.values())
-    ds = "".join(json.dumps({"devs": sorted(s)}) + "\n" for s in devsets)
-    r = ctx.gen("mc/MC_OpenAPIOps", "gen/Gen_OpenAPIOps_xeval.cfg", files={"xcases.ndjson": cases, "devsets.ndjson": ds,
-                                                                              "designs.ndjson": "", },
-                label="%s (%d exchanges x %d deviation sets)" % (label, len(uniq), len(devsets)), timeout=1500)
+        uniq.setdefault((len(v["pa"]), len(v["ra"])), {})[xkey(v)] = v
     table = {}
-    for v in r.vectors:
-        table.setdefault((xkey(v), frozenset(v["devs"])), []).append(v["mech"])
+    ds = "".join(json.dumps({"devs": sorted(s)}) + "\n" for s in devsets)
+    for (npa, nra), group in sorted(uniq.items()):
+        cases = "".join(json.dumps({"pa": v["pa"], "ra": v["ra"], "tagged": v.get("tagged", False), "pv": v["pv"], "rv": v["rv"], "flag": v.get("flag", "none")}) + "\n"
+                        for v in group.values())
+        r = ctx.gen("mc/MC_OpenAPIOps", "gen/Gen_OpenAPIOps_xeval.cfg", files={"xcases.ndjson": cases, "devsets.ndjson": ds, "designs.ndjson": ""},
+                    consts={"NPA": npa, "NRA": nra}, label="%s %dx%d (%d exchanges x %d deviation sets)" % (label, npa, nra, len(group), len(devsets)), timeout=1500)
+        for v in r.vectors:
+            table.setdefault((xkey(v), frozenset(v["devs"])), []).append(v["mech"])
     return table
 
 
